@@ -46,7 +46,10 @@ def run_family(run, leg):
     from mc import build
     grow = [(n + "+grown", d, run.seed, (leg,), "grown") for k, (n, d) in enumerate(defs)
             if build.can_grow(d) and (run.tier != "quick" or k % 4 == run.seed % 4)]
-    jobs = jobs + grow
+    # ... and next to a live, fully evaluated model of the same mathematics declared in the opposite order
+    tw = [(n + "+twin", d, run.seed, (leg,), "twin") for k, (n, d) in enumerate(defs)
+          if build.can_twin(d) and (run.tier != "quick" or k % 4 == (run.seed + 2) % 4)]
+    jobs = jobs + grow + tw
     res = pool.pmap(e1.check_def, cy + jobs, chunksize=1)
     nd = 0
     checks = 0
